@@ -139,20 +139,24 @@ def finish(prop, tier, seed, level, res, rule, assumptions, wall, extra_cov=None
         "assumptions": assumptions, "wall_s": round(wall, 2),
         "violations": int(sum(mech_counts[m] for m in unknown)),
     }
-    os.makedirs(os.path.join(VERIF, "evidence"), exist_ok=True)
-    evpath = os.path.join(VERIF, "evidence", f"{prop}.json")
+    outroot = os.environ.get("VERIF_OUT", VERIF)  # the mutation self-test points this elsewhere
+    os.makedirs(os.path.join(outroot, "evidence"), exist_ok=True)
+    evpath = os.path.join(outroot, "evidence", f"{prop}.json")
     tmp = evpath + ".tmp"
     with open(tmp, "w") as f:
         json.dump(ev, f, indent=1, default=str)
     os.replace(tmp, evpath)
-    _validate(ev)
+    try:
+        _validate(ev)
+    except Exception as e:  # an evidence file that does not validate is 'no evidence': say so, do not crash
+        res.inconc("evidence does not validate: " + str(e).splitlines()[0][:200])
 
     for m in matched:
         print(f"KNOWN-FINDING: property={prop} {m} ({mech_counts[m]} observations) — {known_mech[m].get('what', '')}")
 
     if unknown:
-        os.makedirs(os.path.join(VERIF, "replays"), exist_ok=True)
-        path = os.path.join(VERIF, "replays", f"{prop}-{tier}-{seed}.json")
+        os.makedirs(os.path.join(outroot, "replays"), exist_ok=True)
+        path = os.path.join(outroot, "replays", f"{prop}-{tier}-{seed}.json")
         with open(path, "w") as f:
             json.dump({"property": prop, "tier": tier, "seed": seed,
                        "mechanisms": {m: mech_counts[m] for m in unknown},
